@@ -620,6 +620,83 @@ pub fn d21_regressions() -> Vec<Tpl> {
     ]
 }
 
+// ------------------------------------------------------------------------------------------------
+// C02: comparisons of TUPLES (arity 2-4, components int / string, bool for == and !=) with < <= > >= == != — the
+// reference documents lexicographic comparison (prelude `implement Ord / Equal for (T1, …)`); pairs with an equal
+// prefix that differ at each position, the components after that position random (so a guard that looks at the wrong
+// component shows), and equal tuples.  Oracle: Rust's lexicographic order on the component lists.
+// ------------------------------------------------------------------------------------------------
+pub fn tuple_comparisons(rng: &mut Rng, rounds: usize) -> Vec<Tpl> {
+    #[derive(Clone, PartialEq, PartialOrd)]
+    enum Cv {
+        I(i64),
+        S(String),
+        B(bool),
+    }
+    let show = |c: &Cv| match c {
+        Cv::I(n) => if *n < 0 { format!("({n})") } else { format!("{n}") },
+        Cv::S(s) => format!("{s:?}"),
+        Cv::B(b) => format!("{b}"),
+    };
+    let strs = ["", "a", "ab", "abc", "b", "ba", "z"];
+    let mut v = vec![];
+    for round in 0..rounds {
+        for arity in 2..=4usize {
+            // position of the first difference; `arity` = equal tuples
+            for p in 0..=arity {
+                for with_bool in [false, true] {
+                    // kinds: 0 int, 1 string, 2 bool (only with == / !=)
+                    let kinds: Vec<u8> = (0..arity).map(|k| if with_bool && k == arity - 1 { 2 } else { rng.below(2) as u8 }).collect();
+                    let mkc = |rng: &mut Rng, k: u8| match k {
+                        0 => Cv::I(rng.range(-3, 6)),
+                        1 => Cv::S(rng.pick(&strs).to_string()),
+                        _ => Cv::B(rng.chance(1, 2)),
+                    };
+                    let a: Vec<Cv> = kinds.iter().map(|k| mkc(rng, *k)).collect();
+                    let mut b = a.clone();
+                    for k in p..arity {
+                        // differs at p (retry until it does), random afterwards
+                        loop {
+                            b[k] = mkc(rng, kinds[k]);
+                            if k != p || b[k] != a[k] {
+                                break;
+                            }
+                        }
+                    }
+                    let ta = format!("({})", a.iter().map(show).collect::<Vec<_>>().join(", "));
+                    let tb = format!("({})", b.iter().map(show).collect::<Vec<_>>().join(", "));
+                    let ord = a.partial_cmp(&b).unwrap();
+                    let ops: Vec<(&str, bool)> = if with_bool {
+                        vec![("==", a == b), ("!=", a != b)]
+                    } else {
+                        vec![("<", ord.is_lt()), ("<=", ord.is_le()), (">", ord.is_gt()), (">=", ord.is_ge()), ("==", ord.is_eq()), ("!=", ord.is_ne())]
+                    };
+                    let mut src = format!("let x = {ta}\nlet y = {tb}\n");
+                    let mut exp = String::new();
+                    for (op, r) in &ops {
+                        // on variables, on literals, and as an operand
+                        src.push_str(&format!("println(x {op} y)\nprintln(\"r:\" .. ({ta} {op} {tb}))\n"));
+                        exp.push_str(&format!("{r}\nr:{r}\n"));
+                    }
+                    if !with_bool {
+                        // sorting uses the same order
+                        let (lo, hi) = if ord.is_le() { (&ta, &tb) } else { (&tb, &ta) };
+                        src.push_str("let arr = [x, y]\narr.sort()\nprintln(arr)\n");
+                        let plain = |t: &str| t.replace('"', "").replace("(-", "-").replace("), ", ", ").replace("))", ")");
+                        let _ = plain;
+                        let disp = |t: &Vec<Cv>| format!("({})", t.iter().map(|c| match c { Cv::I(n) => n.to_string(), Cv::S(s) => s.clone(), Cv::B(b) => b.to_string() }).collect::<Vec<_>>().join(", "));
+                        let (la, lb) = if ord.is_le() { (disp(&a), disp(&b)) } else { (disp(&b), disp(&a)) };
+                        let _ = (lo, hi);
+                        exp.push_str(&format!("[ {la}, {lb} ]\n"));
+                    }
+                    v.push(tpl(format!("tuple-comparison#{round} arity {arity} first difference at {p}{}", if with_bool { " (bool component)" } else { "" }), "tuple-comparison", &["C02"], src, Expect::Out(exp)));
+                }
+            }
+        }
+    }
+    v
+}
+
 pub fn all_templates(seed: u64, quick: bool) -> Vec<Tpl> {
     let mut rng = Rng::new(seed ^ 0xb69c_0fee);
     let mut v = vec![];
@@ -627,6 +704,7 @@ pub fn all_templates(seed: u64, quick: bool) -> Vec<Tpl> {
     v.extend(wide_calls(&mut rng, if quick { 15 } else { 200 }));
     v.extend(byte_intrinsics(&mut rng, if quick { 40 } else { 600 }));
     v.extend(try_mixed());
+    v.extend(tuple_comparisons(&mut rng, if quick { 2 } else { 20 }));
     v.extend(captured_fn_values(&mut rng, if quick { 24 } else { 300 }));
     v.extend(size_limits(quick));
     v.extend(fixed());
